@@ -147,3 +147,91 @@ def ledger_oracle(res, sw, which):
     for c, t in zip(sw.cases, sw.clean): one(c.label, c.scn, t)
     for (i, kind, k, mode, sc, t) in sw.run_faults(): one("%s +fault %s#%d%s" % (sw.cases[i].label, kind, k, " short" if mode == "short" else ""), sc, t)
     return n
+
+def size_oracle(res, sw, include_faults=True):
+    """C07: bytes accepted by write() on the output handle vs the declared size read from the listing before the call"""
+    import struct
+    n = 0
+    def salvage_on(sc):
+        on = False
+        for l in sc.lines:
+            p = l.split()
+            if len(p) == 3 and p[0] == "cab_param" and p[1] == "3": on = p[2] != "0"
+        return on
+    def one(label, sc, t):
+        nonlocal n
+        if t.crash or t.hang: return
+        salv = salvage_on(sc)
+        files = {l.split()[1]: l.split()[2] for l in sc.lines if l.startswith("file ")}
+        for o in t.ops:
+            why = None
+            if o.declared is not None:
+                if o.written > o.declared: why = "%s wrote %d bytes, declared %d" % (o.name, o.written, o.declared)
+                elif o.kv.get("st") == "0" and o.written != o.declared and not (salv and o.name == "cab_extract"):
+                    why = "%s returned OK after %d of %d declared bytes" % (o.name, o.written, o.declared)
+                elif o.kv.get("st") == "0" and o.outlen is not None and o.outlen != o.written:
+                    why = "%s: output file holds %d bytes, %d were accepted" % (o.name, o.outlen, o.written)
+            elif o.name in ("oab_decompress", "oab_incr") and o.outlen is not None:
+                src = files.get("in0.oab" if o.name == "oab_decompress" else "in0.pat", "-")
+                if src != "-" and len(src) >= (32 if o.name == "oab_decompress" else 40):
+                    hb = bytes.fromhex(src[:80])
+                    target = struct.unpack_from("<I", hb, 12 if o.name == "oab_decompress" else 16)[0]
+                    if o.outlen > target: why = "%s wrote %d bytes, target size %d" % (o.name, o.outlen, target)
+                    elif o.kv.get("st") == "0" and o.outlen != target: why = "%s returned OK after %d of %d bytes" % (o.name, o.outlen, target)
+            if why:
+                if res.violation("%s: %s" % (label, why), sc.text() + "\n# " + why, key="size:" + o.name): n += 1
+                break
+    for c, t in zip(sw.cases, sw.clean): one(c.label, c.scn, t)
+    if include_faults:
+        for (i, kind, k, mode, sc, t) in sw.run_faults(): one("%s +fault %s#%d" % (sw.cases[i].label, kind, k), sc, t)
+    return n
+
+def fault_oracle(res, sw):
+    """C10: under a single host failure every op either reports non-OK or reproduces the failure-free result; last_error() = status"""
+    n = 0; checked = 0
+    def lasterr(label, sc, t):
+        nonlocal n
+        for o in t.ops:
+            bad = None
+            if "st" in o.kv and "err" in o.kv and o.kv["st"] != o.kv["err"]: bad = "%s returned %s but last_error() says %s" % (o.name, o.kv["st"], o.kv["err"])
+            if "ok" in o.kv and "err" in o.kv and o.name != "cab_search":
+                if o.kv["ok"] == "0" and o.kv["err"] == "0": bad = "%s returned NULL but last_error() is OK" % o.name
+                if o.kv["ok"] == "1" and o.kv["err"] != "0": bad = "%s succeeded but last_error() says %s" % (o.name, o.kv["err"])
+            if bad:
+                if res.violation("%s: %s" % (label, bad), sc.text() + "\n# " + bad, key="lasterr:" + o.name): n += 1
+                return
+    for c, t in zip(sw.cases, sw.clean):
+        if not (t.crash or t.hang): lasterr(c.label, c.scn, t)
+    for (i, kind, k, mode, sc, t) in sw.run_faults():
+        if t.crash or t.hang or t.ledger.get("faults_hit", 0) == 0: continue
+        label = "%s +fault %s#%d%s" % (sw.cases[i].label, kind, k, " short" if mode == "short" else "")
+        lasterr(label, sc, t)
+        def keyed(ops):
+            d = {}; cnt = {}
+            for o in ops:
+                if o.outname: k = (o.name, o.outname)
+                elif "name" in o.kv: k = (o.name, o.kv["name"], o.kv.get("idx"))
+                else:
+                    cnt[o.name] = cnt.get(o.name, 0) + 1; k = (o.name, cnt[o.name])
+                d.setdefault(k, o)
+            return d
+        clean = keyed(sw.clean[i].ops)
+        tainted = set()     # variables whose defining call (open/search/append/prepend) went differently: later calls on them have different inputs
+        for k_, o in keyed(t.ops).items():
+            co_ = clean.get(k_)
+            if o.name in ("cab_open", "cab_search", "cab_append", "cab_prepend", "chm_open", "chm_fast_open", "szdd_open", "kwaj_open"):
+                if co_ is None or (co_.kv.get("st"), co_.kv.get("ok")) != (o.kv.get("st"), o.kv.get("ok")): tainted.update(o.vars)
+                elif any(v in tainted for v in o.vars): tainted.update(o.vars)
+            if any(v in tainted for v in o.vars) and not (o.name.endswith("_open") or o.name == "cab_search"): continue
+            if o.name in ("cab_new", "chm_new", "szdd_new", "kwaj_new", "oab_new"): continue
+            if "st" in o.kv: okst = o.kv["st"] == "0"
+            else: okst = o.kv.get("ok") == "1" and o.kv.get("err", "0") == "0"     # pointer-returning calls: last_error() is the status
+            if not okst: continue
+            checked += 1
+            co = clean.get(k_)
+            if co is None: continue
+            if (tuple(co.lines), co.out, co.outlen) != (tuple(o.lines), o.out, o.outlen) or (co.kv.get("st"), co.kv.get("ok")) != (o.kv.get("st"), o.kv.get("ok")):
+                why = "%s reported success with a result different from the failure-free run (outlen %s vs %s)" % (o.name, o.outlen, co.outlen)
+                if res.violation("%s: %s" % (label, why), sc.text() + "\n# " + why, key="fault-ok:%s:%s" % (o.name, kind)): n += 1
+                break
+    return n, checked
